@@ -1835,6 +1835,13 @@ class FuncVerifier(object):
             # x[m] of a 1-D array: the spec term Compress(x, m, n)
             self.oblige(st, self.site(node, 'shape'), m.shape[0] == av.shape[0], node)
             idx, cnt, pos = self.mask_facts(m, st)
+            if av.elem not in ('int', 'bool'):
+                # complex / real entries: the spec term Compress is integer-valued; a fresh array with the same pointwise meaning
+                res = fresh('gathered', av.term.sort())
+                k_ = fresh('k', I)
+                st.pc.append(z3.ForAll([k_], z3.Implies(z3.And(0 <= k_, k_ < cnt), z3.Select(res, k_) == z3.Select(av.term, z3.Select(idx, k_))),
+                                       patterns=[z3.Select(res, k_)]))
+                return st.alloc(AV(res, (cnt,), av.elem))
             return st.alloc(AV(self.lib.theory.decls['Compress'](av.term, m.term, m.shape[0]), (cnt,), av.elem))
         if av.ndim != 2:
             raise OutOfFragment('boolean row indexing of a non-2-D array', node)
